@@ -286,7 +286,7 @@ func SameFunc(a, b any) bool {
 
 // RunUntilBlocked runs a goroutine body f. Under the executor it reports whether f ended
 // blocked on a channel operation with nothing ready (the harness continues either way).
-// Natively f runs in a goroutine; it counts as blocked if it has not returned after 300 ms.
+// Natively f runs in a goroutine; it counts as blocked if it has not returned after 1 s.
 func RunUntilBlocked(f func()) bool {
 	done := make(chan struct{})
 	var pan any
@@ -303,53 +303,26 @@ func RunUntilBlocked(f func()) bool {
 			panic(pan)
 		}
 		return false
-	case <-time.After(300 * time.Millisecond):
+	case <-time.After(nativeGrace):
 		return true
 	}
 }
 
+// nativeGrace: how long a natively running goroutine body may stay silent before it is taken
+// to be blocked (generous, so that a loaded machine does not turn slowness into "blocked")
+const nativeGrace = time.Second
+
 // RunWithEnv runs a goroutine body f against a scripted environment: whenever f is about to
 // block, env gets a turn (and reports whether it did something); f counts as blocked once env
-// has nothing left to do. Natively "about to block" is approximated by 60 ms of quiet.
-func RunWithEnv(f func(), env func() bool) bool {
-	done := make(chan struct{})
-	var pan any
-	go func() {
-		defer func() {
-			pan = recover()
-			close(done)
-		}()
-		f()
-	}()
-	for {
-		select {
-		case <-done:
-			if pan != nil {
-				panic(pan)
-			}
-			return false
-		case <-time.After(60 * time.Millisecond):
-			if !env() {
-				select {
-				case <-done:
-					if pan != nil {
-						panic(pan)
-					}
-					return false
-				case <-time.After(300 * time.Millisecond):
-					return true
-				}
-			}
-		}
-	}
-}
+// has nothing left to do (natively: see RunGoroutines).
+func RunWithEnv(f func(), env func() bool) bool { return RunGoroutines(env, f) }
 
 // RunGoroutines runs several goroutine bodies against a scripted environment. Under the
 // executor the bodies are scheduled cooperatively (one runs until it blocks on a channel
 // operation, then the next); when all of them are blocked env gets a turn and reports whether
 // it did something; the call returns once env has nothing left to do, reporting whether some
-// body is still blocked. Natively the bodies are real goroutines and "all blocked" is
-// approximated by 60 ms of quiet.
+// body is still blocked. Natively the bodies are real goroutines, the environment is polled
+// every 20 ms, and "blocked for good" means it had nothing to do for a second.
 func RunGoroutines(env func() bool, bodies ...func()) bool {
 	var wg sync.WaitGroup
 	var mu sync.Mutex
@@ -370,31 +343,27 @@ func RunGoroutines(env func() bool, bodies ...func()) bool {
 	}
 	done := make(chan struct{})
 	go func() { wg.Wait(); close(done) }()
-	finish := func() bool {
+	check := func() {
 		mu.Lock()
 		defer mu.Unlock()
 		if pan != nil {
 			panic(pan)
 		}
-		return false
 	}
+	// the environment is polled every 20 ms; the bodies count as blocked for good once it has
+	// had nothing to do for nativeGrace
+	lastAction := time.Now()
 	for {
 		select {
 		case <-done:
-			return finish()
-		case <-time.After(60 * time.Millisecond):
-			if !env() {
-				select {
-				case <-done:
-					return finish()
-				case <-time.After(300 * time.Millisecond):
-					mu.Lock()
-					defer mu.Unlock()
-					if pan != nil {
-						panic(pan)
-					}
-					return true
-				}
+			check()
+			return false
+		case <-time.After(20 * time.Millisecond):
+			check()
+			if env != nil && env() {
+				lastAction = time.Now()
+			} else if time.Since(lastAction) > nativeGrace {
+				return true
 			}
 		}
 	}
